@@ -20,10 +20,10 @@ func init() {
 		ID: "C25",
 		Expl: "Decides the structural form of the invariant 'the in-memory policy is a pure function of the policy file': " +
 			"(R1) over ALL stores of the production program into a policy.Policy object: each one initialises a freshly allocated object, or is the whole-object overwrite with the value just parsed from the file, or restores the path field with the value it had before that overwrite; no mutator edits a field in place, and every success return after the overwrite has the path restored; " +
-			"(R2) over ALL methods of *Policy that reach a file write: every file write is dominated by policy.mu.Lock, by the pubkey validator passing on the very parameter that is written (validator = anchored regexp over the whole string, decided by interpreting the pattern constant on probe strings) and, for additions, by the not-already-present test on the list the written ini key belongs to; every path from a successful write to a return reloads the file first, the reload error is not dropped, and a nil return that wrote nothing is justified by a dominating test that memory already equals the written value; " +
+			"(R2) over ALL methods of *Policy that reach a file write: every file write is dominated by policy.mu.Lock, every read of policy memory that feeds a branch of the mutator (already-listed / already-in-target-state tests, directly or through a helper handed the receiver) happens with policy.mu held, i.e. test, write and reload are one critical section, by the pubkey validator passing on the very parameter that is written (validator = anchored regexp over the whole string, decided by interpreting the pattern constant on probe strings) and, for additions, by the not-already-present test on the list the written ini key belongs to; every path from a successful write to a return reloads the file first, the reload error is not dropped, and a nil return that wrote nothing is justified by a dominating test that memory already equals the written value; " +
 			"(R3) the ini lines: every written key is the ini name of a Policy field of the matching type, the line appended and the line removed for the same key have the same format, and the two toggles write/remove each other's lines; the rewrite helper copies a scanned line into the new file only on the edge `line != argument` (directly, or through a generic filter whose predicate closure is exactly that comparison), so every copy of the target line is dropped and the match is on the whole `key=value` line; a remove-mutator that hands the helper the bare parameter while no ini key is known to the helper is reported; " +
 			"Guards, the lock and the reload are also recognised when they sit in an in-module helper whose tested outcome implies them, or (lock, fresh-object initialisers, path restore) in every caller of an unexported function; shapes that are not interpreted end as undecided, never as a violation. (R4) every non-mutating method of the swap.Policy interface (and Get) computes its result only from the live fields of its receiver. The quantifier is over all stores, all mutators, all their CFG paths and all written lines, i.e. over all sequences of operations.",
-		NotD: "Semantics of the go-flags ini parser (sections, `key = value` spelling, last-wins for repeated scalar keys), a pre-existing file without trailing newline, file-system atomicity and I/O failures between the two writes of a toggle, in-place mutation of a list through a library call or through the slices returned by Get(), whether the lock is held by readers (owned by C19; listed as info under R4).",
+		NotD: "Semantics of the go-flags ini parser (sections, `key = value` spelling, last-wins for repeated scalar keys), a pre-existing file without trailing newline and whether a rewrite that does not use bufio.Scanner re-terminates every kept line (only the raw strings.Split(content, newline) comparison, which never matches on CRLF files, is reported; other splitting shapes end undecided), file-system atomicity and I/O failures between the two writes of a toggle, in-place mutation of a list through a library call or through the slices returned by Get(), whether the lock is held by readers (owned by C19; listed as info under R4).",
 		Run:  runC25,
 	})
 }
@@ -1417,6 +1417,58 @@ func (x *c25ctx) r2(over map[*ssa.Function]*c25overwrite) []*c25mut {
 			c.Unknown("C25.R2", name+" lock", pos, "cannot decide whether policy.mu is held at the file write / reload: "+lockWhy)
 		}
 
+		// ---- atomicity: the tests that decide the write read policy memory inside the critical section
+		{
+			verdict, why, wpos := "ok", "", pos
+			worse := func(v, y, p string) {
+				if verdict == "bad" || (verdict == "unknown" && v != "bad") {
+					return
+				}
+				verdict, why, wpos = v, y, p
+			}
+			for _, b := range fn.Blocks {
+				for _, in := range b.Instrs {
+					var val ssa.Value
+					what := ""
+					if v, isV := in.(ssa.Value); isV {
+						if lb, lf, ld := x.polFieldLoad(v); ld != nil && lb == ssa.Value(recv) {
+							val, what = v, "Policy."+x.polSt.Field(lf).Name()
+						}
+					}
+					// a helper that reads the policy object for the mutator
+					if call, isCall := in.(*ssa.Call); isCall && val == nil {
+						if g := w.Info(call).Static; g != nil && w.InModule(g) && g.Blocks != nil && !x.acquires(g, 0) && !x.reaches(g, over) && x.readsPolicy(g) {
+							for _, a := range call.Call.Args {
+								if a == ssa.Value(recv) {
+									val, what = call, "the policy fields read by "+w.FuncName(g)
+								}
+							}
+						}
+					}
+					if val == nil || !c25flowsToBranch(val) {
+						continue
+					}
+					st, lw := x.lockState(in, 0)
+					switch st {
+					case "held":
+					case "free":
+						worse("bad", what+" is read for a decision before policy.mu is taken ("+lw+")", w.Pos(in.Pos()))
+					default:
+						worse("unknown", what+": "+lw, w.Pos(in.Pos()))
+					}
+				}
+			}
+			cons := name + " decisions inside the critical section"
+			switch verdict {
+			case "ok":
+				c.OK("C25.R2", cons, pos, "every read of policy memory that feeds a branch of the mutator happens with policy.mu held")
+			case "bad":
+				c.Bad("C25.R2", cons, wpos, why+": the test (already listed / already in the target state) and the file write are not one critical section, so concurrent calls all pass the test on the old state and each performs its write — duplicate lines in the file and, after the reload, in memory")
+			default:
+				c.Unknown("C25.R2", cons, wpos, "cannot decide whether policy.mu is held where the mutator reads policy memory for a decision: "+why)
+			}
+		}
+
 		// ---- guards
 		for _, wr := range m.writes {
 			if wr.line.param == nil {
@@ -2233,6 +2285,10 @@ func (x *c25ctx) dropsEqual(h *ssa.Function, idx int, depth int) (string, string
 		}
 		return "ok", w.FuncName(h)
 	}
+	// lines obtained by splitting the file content at "\n" and compared raw keep their "\r"
+	if v, why := x.rawSplitCompare(h, target); v != "" {
+		return v, why
+	}
 	// no loop here: the work is delegated
 	for _, ci := range an.Calls(h) {
 		call, isCall := ci.(*ssa.Call)
@@ -2428,4 +2484,109 @@ func (x *c25ctx) keylessRemove(fn *ssa.Function, wr *c25write, arg ssa.Value) {
 	}
 	sort.Strings(keyConsts)
 	c.Unknown("C25.R3", cons, w.Pos(wr.call.Pos()), fmt.Sprintf("the remove-mutator hands only the bare parameter to %s; the helper contains the key constant(s) %v but how they enter the match is not analysed", w.FuncName(h), keyConsts))
+}
+
+// readsPolicy: the function loads a field of a policy.Policy object.
+func (x *c25ctx) readsPolicy(g *ssa.Function) bool {
+	for _, b := range g.Blocks {
+		for _, in := range b.Instrs {
+			if v, ok := in.(ssa.Value); ok {
+				if _, _, ld := x.polFieldLoad(v); ld != nil {
+					return true
+				}
+			}
+		}
+	}
+	return false
+}
+
+// c25flowsToBranch: the value (or something computed from it) is the condition of a branch.
+func c25flowsToBranch(v ssa.Value) bool {
+	seen := map[ssa.Value]bool{}
+	var rec func(v ssa.Value, depth int) bool
+	rec = func(v ssa.Value, depth int) bool {
+		if seen[v] || depth > 12 || v.Referrers() == nil {
+			return false
+		}
+		seen[v] = true
+		for _, r := range *v.Referrers() {
+			switch y := r.(type) {
+			case *ssa.If:
+				return true
+			case *ssa.Store:
+				if al, ok := y.Addr.(*ssa.Alloc); ok && y.Val == v {
+					for _, ld := range an.LoadsReachedBy(y) {
+						if rec(ld, depth+1) {
+							return true
+						}
+					}
+					_ = al
+				}
+			case *ssa.Call:
+				// an argument of a library or in-module function whose result is tested
+				if rec(y, depth+1) {
+					return true
+				}
+			case *ssa.Return, *ssa.Defer, *ssa.Go:
+			case ssa.Value:
+				if rec(y, depth+1) {
+					return true
+				}
+			}
+		}
+		return false
+	}
+	return rec(v, 0)
+}
+
+// rawSplitCompare: the helper splits the file content with strings.Split(content, "\n")
+// and compares the raw elements with the target. Unlike bufio.Scanner's ScanLines this
+// keeps the "\r" of a CRLF file on every element, so no line of such a file (which the
+// ini parser loads without complaint) ever equals the target: the removal reports
+// success and changes nothing. "" when the shape is not present.
+func (x *c25ctx) rawSplitCompare(h *ssa.Function, target *ssa.Parameter) (string, string) {
+	w := x.w
+	var split *ssa.Call
+	for _, ci := range an.Calls(h) {
+		call, ok := ci.(*ssa.Call)
+		if !ok || len(call.Call.Args) != 2 {
+			continue
+		}
+		switch w.Info(ci).Name {
+		case "func:strings.Split", "func:strings.SplitN", "func:strings.SplitAfter", "func:bytes.Split":
+			if sep, ok := an.ConstString(call.Call.Args[1]); ok && sep == "\n" {
+				split = call
+			}
+		}
+	}
+	if split == nil {
+		return "", ""
+	}
+	name := w.Info(split).Name + "#0"
+	for _, f := range w.Facts(h) {
+		if !f.NonNum || f.LV == nil || f.RV == nil || (f.Rel != "!=" && f.Rel != "==") {
+			continue
+		}
+		var other ssa.Value
+		switch {
+		case f.LV == ssa.Value(target):
+			other = f.RV
+		case f.RV == ssa.Value(target):
+			other = f.LV
+		default:
+			continue
+		}
+		ss := w.Sources(other, an.FlowOpts{})
+		raw := len(ss.Leaves) > 0
+		for _, l := range ss.Leaves {
+			if !(l.Kind == "call" && l.Name == name) {
+				raw = false
+			}
+		}
+		if raw {
+			return "bad", "the lines come from " + strings.TrimPrefix(w.Info(split).Name, "func:") + `(content, "\n") and are compared untrimmed: on a file with CRLF line ends every element ends in "\r" and never equals the target, so the removal is reported but nothing is removed (bufio.Scanner's ScanLines, which the helper must be equivalent to, drops the "\r")`
+		}
+		return "unknown", "the lines come from a split at \"\\n\" and are transformed before the comparison; whether \"\\r\" is dropped and every kept line is re-terminated is not analysed"
+	}
+	return "unknown", "the helper splits the content at \"\\n\" but no comparison with the target was recognised"
 }
